@@ -3,7 +3,7 @@
    (+ VM/SortLemmas.v), concrete witnesses in VM/Witness.v and VM/NonVac.v. *)
 From Coq Require Import String List.
 From NV Require Import Base.Show VM.Value VM.Ast VM.Bytecode VM.Compile VM.Machine VM.RefSem VM.Exec
-     VM.Proofs VM.ProofsErr VM.Witness VM.NonVac.
+     VM.Proofs VM.ProofsErr VM.StaticBinding VM.ProofsStatic VM.Witness VM.NonVac.
 
 (* MAIN THEOREM — whole programs.  For every instance of the primitive operations,
    every program p of the modelled language (let with shadowing, fn with parameters and
@@ -21,6 +21,25 @@ Theorem C09_compile_correct :
     exists m, Machine.run O (compile (procs O) p) m = Ok (out, v).
 Proof. exact @compile_correct. Qed.
 Print Assumptions C09_compile_correct.
+
+(* The same for the PLAIN static reference semantics (no stale check), under syntactic
+   hypotheses: the program defines no function name twice, and foreign functions do not
+   invent function values (proved for the instance used by the tie: zffi_parametric).
+   Together with C09_funref_refuted: redefinition is the only way to break the property. *)
+Theorem C09_compile_correct_static :
+  forall (Q : Type) (O : ops Q) (p : program Q) (n : nat) out v,
+    ffi_parametric O -> NoDup (fn_names p) ->
+    compile_ok (compile (procs O) p) = true ->
+    run_static O n p = Ok (out, v) ->
+    exists m, Machine.run O (compile (procs O) p) m = Ok (out, v).
+Proof. exact @compile_correct_static. Qed.
+Print Assumptions C09_compile_correct_static.
+
+Example C09_static_hypotheses_satisfiable : ffi_parametric zops /\ NoDup (fn_names demo).
+Proof.
+  split; [exact zffi_parametric|].
+  vm_compute. repeat constructor; simpl; intuition discriminate.
+Qed.
 
 (* PARTIAL no-stuck: on every program whose checked reference evaluation succeeds the
    machine never panics and never raises an error, whatever fuel it is given.  (Not
